@@ -199,7 +199,58 @@ def check(run):
             run.fail('%s through a conditional over %s and %s is %s with %s first and %s with %s first (%s)' % (form, x, y, 'accepted' if ok else 'rejected', x, 'accepted' if ok2 else 'rejected', y, (errs or errs2)[0] if (errs or errs2) else ''),
                      dict(form=form, operands=[x, y], model=model, model_swapped=model2), shape='asym-lvalue:%s' % form)
     run.cov['lvalue_conditional_pairs_checked'] = nlv
-    run.cov.update(evaluations=len(cases) + len(refcases) + len(smodels) + len(imodels) + len(lmodels), distinct_nontrivial=len(verdict), traces_validated_against_impl=len(cases), exhaustive=True,
+    # ---- the same swaps where the checker applies further rules to the expression: guard, invariant, update, query, observation list ----
+    # (every pair of operand classes for which the operator types in at least one order)
+    XTA = ('int i, j; int[0,5] ri; bool b, c, bq; double d, e; clock x, y;\nprocess P() { state A { %(inv)s }, B; init A; trans A -> B { guard %(guard)s; assign %(assign)s; }; }\nsystem P;\n')
+    places = {'guard': lambda e: (XTA % dict(inv='true', guard=e, assign='bq = true'), None), 'invariant': lambda e: (XTA % dict(inv=e, guard='true', assign='bq = true'), None),
+              'update': lambda e: (XTA % dict(inv='true', guard='true', assign='bq = (%s)' % e), None), 'query': lambda e: (XTA % dict(inv='true', guard='true', assign='bq = true'), 'E<> (%s)' % e),
+              'observation': lambda e: (XTA % dict(inv='true', guard='true', assign='bq = true'), '{ %s } control: A<> P.B' % e),
+              'leadsto': lambda e: (XTA % dict(inv='true', guard='true', assign='bq = true'), '(%s) --> P.B' % e)}
+    plain = ['CInt', 'CBool', 'CDouble', 'CClock', 'CDiff', 'CInvariant', 'CGuard', 'CConstraint']
+    pcases = []
+    for op in COMM:
+        for ia, a in enumerate(plain):
+            for b in plain[ia:]:
+                if verdict.get(('B', op, a, b), (None,))[0] is None and verdict.get(('B', op, b, a), (None,))[0] is None:
+                    continue
+                for ra in tf.REPS[a][:2]:
+                    rb = tf.REPS[b][-1] if a == b and len(tf.REPS[b]) > 1 else tf.REPS[b][0]
+                    if ra == rb:
+                        continue
+                    for pl in places:
+                        pcases.append((op, a, b, pl, '(%s) %s (%s)' % (ra, tf.OPS[op], rb), '(%s) %s (%s)' % (rb, tf.OPS[op], ra)))
+    j = vlib.Job()
+    for k, (op, a, b, pl, e1, e2) in enumerate(pcases):
+        for o, e in enumerate((e1, e2)):
+            m, q = places[pl](e)
+            j.case('pl%d_%d' % (k, o), fork=True).model('xta', m).dump('errors')
+            if q:
+                j.query(q, rt=False)
+            j.end()
+    rr = vlib.run_jobs(j)
+    nplaced = 0
+    for k, (op, a, b, pl, e1, e2) in enumerate(pcases):
+        res = []
+        for o in (0, 1):
+            c = rr['pl%d_%d' % (k, o)]
+            if c['status'] != 'ok':
+                run.fail('type checker crashed on %r as %s' % ((e1, e2)[o], pl), dict(expr=(e1, e2)[o], place=pl, status=c['status']), shape='crash:placed')
+                res = None
+                break
+            errs = sorted(l.split('msg="')[1].split('"')[0] for l in c['cmds'][1][2] if l.startswith('error'))
+            if len(c['cmds']) > 2:
+                errs += sorted(l.split('msg="')[1].split('"')[0] for l in c['cmds'][2][2] if l.startswith('error'))
+                if not any(l.startswith('accepted 1') for l in c['cmds'][2][2]) and not errs:
+                    errs = ['query rejected']
+            res.append(errs)
+        if res is None:
+            continue
+        nplaced += 1
+        if (not res[0]) != (not res[1]) or res[0] != res[1]:
+            run.fail('as %s, %r gives %s and %r gives %s' % (pl, e1, res[0][:2] or 'no diagnostic', e2, res[1][:2] or 'no diagnostic'), dict(place=pl, a=e1, b=e2, diagnostics=res),
+                     shape='asym-placed:%s:%s:%s' % (pl, op, '/'.join(sorted([a, b]))))
+    run.cov['placed_pairs_checked'] = nplaced
+    run.cov.update(evaluations=len(cases) + len(refcases) + len(smodels) + len(imodels) + len(lmodels) + 2 * len(pcases), distinct_nontrivial=len(verdict), traces_validated_against_impl=len(cases), exhaustive=True,
                    rule='exhaustive: every binary operator of the typing table x every ordered pair of the %d realised operand classes (int, bounded int, bool, double, clock, clock difference, rate, invariant, guard, '
                         'constraint, two struct types, two array types, two scalar sets, three channel kinds, void), and inline-if over 5 condition classes x all branch pairs: '
                         'implementation class vs extracted Coq table; then both operand orders compared on the implementation; plus reference/const parameter x argument type matrix' % len(classes),
